@@ -60,6 +60,18 @@ const (
 	// answer records it instead of the retryable timeout failure.
 	OOverrunPromptOk   Outcome = 10
 	OOverrunPromptPerm Outcome = 11
+	// OOverrunIgnore IGNORES the cancellation and answers (good response, no error) lateLo..lateHi after the deadline:
+	// while the retry (made slow by OSlowOk / OSlowPerm, which answer only after slowDelay) is already in flight.
+	// An engine that lets a late answer reach a later attempt records it there.
+	OOverrunIgnore Outcome = 12
+	OSlowOk        Outcome = 13 // = OOk, answered after slowDelay
+	OSlowPerm      Outcome = 14 // = OPerm, answered after slowDelay
+)
+
+const (
+	slowDelay = 40 * time.Millisecond
+	lateLo    = 15 // ms after the deadline
+	lateHi    = 25
 )
 
 // promptLag: well inside any grace period an engine might grant, well outside scheduling noise on an idle machine.
@@ -67,8 +79,13 @@ const promptLag = 8 * time.Millisecond
 
 // coq maps a harness outcome to the model's outcome.
 func (o Outcome) coq() Outcome {
-	if o == OOverrunPromptOk || o == OOverrunPromptPerm {
+	switch o {
+	case OOverrunPromptOk, OOverrunPromptPerm, OOverrunIgnore:
 		return OOverrun
+	case OSlowOk:
+		return OOk
+	case OSlowPerm:
+		return OPerm
 	}
 	return o
 }
@@ -88,7 +105,7 @@ func isFinal(o Outcome) bool {
 	return outcomeResp[o] == 2 || outcomeErr[o] != 1
 }
 
-func isOk(o Outcome) bool { return o == OOk || o == ONilOk }
+func isOk(o Outcome) bool { o = o.coq(); return o == OOk || o == ONilOk }
 
 func outcomeTerm(o Outcome) string { return outcomeName[o.coq()] }
 
@@ -100,6 +117,7 @@ type ActSpec struct {
 	Dflt      Outcome   `json:"dflt"`
 	TimeoutMs int       `json:"timeout_ms"`
 	Combo     int       `json:"combo"` // index in the bounded-exhaustive family, -1 otherwise
+	Alt       bool      `json:"alt,omitempty"` // sequence action run by the plugin whose declared response is a POINTER (*AltResp)
 }
 
 func (a *ActSpec) planned(k int) Outcome {
@@ -167,10 +185,20 @@ func (p *PlanSpec) setPaths(r *core.Rand) {
 	fix := func(a *ActSpec, path string, check bool) {
 		a.Path, a.Check = path, check
 		a.TimeoutMs = 30000
+		slow := false
 		for k := 0; k <= a.Retries; k++ {
 			if a.planned(k).coq() == OOverrun {
 				a.TimeoutMs = r.Range(15, 25)
 			}
+			if o := a.planned(k); o == OOverrunIgnore || o == OSlowOk || o == OSlowPerm {
+				slow = true
+			}
+		}
+		if slow { // room for the slow answers (slowDelay) with a wide margin
+			a.TimeoutMs = r.Range(60, 70)
+		}
+		if check {
+			a.Alt = false
 		}
 	}
 	for g := 0; g < 5; g++ {
@@ -215,7 +243,7 @@ func exhaustivePlans(root *core.Rand, k int, both bool) []*PlanSpec {
 	for c := 0; c < total; c++ {
 		mk := func() *ActSpec {
 			x := c / 5
-			a := &ActSpec{Retries: c % 5, Combo: c, Dflt: Outcome((c*7 + 3) % int(nOutcomes))}
+			a := &ActSpec{Retries: c % 5, Combo: c, Dflt: Outcome((c*7 + 3) % int(nOutcomes)), Alt: (c/5)%4 == 1}
 			for i := 0; i < k; i++ {
 				o := Outcome(x % int(nOutcomes))
 				if o == OOverrun { // flavour of the overrun, spread deterministically
@@ -334,6 +362,36 @@ func exhaustivePlans(root *core.Rand, k int, both bool) []*PlanSpec {
 	return plans
 }
 
+// latePlans: a timed-out invocation whose plugin ignores the cancellation and answers late, while the retry (a slow
+// one) is in flight. Consecutive plans share a child process (the batch), so they run concurrently in one process.
+func latePlans(root *core.Rand) []*PlanSpec {
+	r := root.Fork(0x1a7e)
+	scripts := [][]Outcome{
+		{OOverrunIgnore, OSlowOk}, {OOverrunIgnore, OSlowPerm}, {OErr, OOverrunIgnore, OSlowOk},
+		{OOverrunIgnore, OOverrunIgnore, OSlowOk}, {OOverrunIgnore, OSlowPerm, OOk}, {OGoodTrans, OOverrunIgnore, OSlowPerm},
+		{OOverrunIgnore, OSlowOk}, {OOverrunIgnore, OOverrunIgnore, OSlowPerm},
+	}
+	var plans []*PlanSpec
+	for i := 0; i < 8; i++ {
+		p := &PlanSpec{Index: i, Kind: "late", Tol: -1, Conc: 3}
+		for s := 0; s < 3; s++ {
+			sc := scripts[(i*3+s)%len(scripts)]
+			a := &ActSpec{Retries: len(sc) - 1 + (i+s)%2, Script: append([]Outcome{}, sc...), Dflt: OSlowOk, Combo: -1, Alt: (i+s)%3 == 0}
+			sq := []*ActSpec{a}
+			if a.predicted() { // a following action of the sequence: slow as well, so that it is in flight when answers arrive late
+				sq = append(sq, &ActSpec{Retries: 1, Script: []Outcome{OSlowOk}, Dflt: OSlowOk, Combo: -1})
+			}
+			p.Seqs = append(p.Seqs, sq)
+		}
+		if i%2 == 0 {
+			p.PG[GDeferred] = []*ActSpec{{Retries: 2, Script: []Outcome{OOverrunIgnore, OSlowOk}, Dflt: OSlowOk, Combo: -1}}
+		}
+		p.setPaths(r)
+		plans = append(plans, p)
+	}
+	return plans
+}
+
 // longPlans: the "long budget" family. Retries around and above 32 and 64, scripts that keep failing transiently for
 // the whole budget, and variants that succeed / fail permanently / answer with a wrong type at attempt 30-45.
 // No overruns here (the fast retry policy - 100 us, factor 1.1, at most 1 ms - keeps 65 attempts under 0.1 s).
@@ -389,7 +447,7 @@ func longPlans(root *core.Rand) []*PlanSpec {
 var randWeights = []int{25, 15, 7, 6, 7, 6, 10, 5, 6, 5, 4, 4}
 
 func randomAct(r *core.Rand) *ActSpec {
-	a := &ActSpec{Retries: r.Intn(5), Combo: -1, Dflt: Outcome(r.Weighted(randWeights))}
+	a := &ActSpec{Retries: r.Intn(5), Combo: -1, Dflt: Outcome(r.Weighted(randWeights)), Alt: r.Intn(10) < 3}
 	n := r.Intn(7)
 	for i := 0; i < n; i++ {
 		a.Script = append(a.Script, Outcome(r.Weighted(randWeights)))
@@ -469,6 +527,7 @@ type RunObs struct {
 	Events []string  `json:"events"`
 	Last   ActImg    `json:"last"` // the action as handed to the last UpdateAction of this run
 	Trunc  bool      `json:"trunc,omitempty"`
+	RespFl []string  `json:"resp_flavour,omitempty"` // per invocation: which Go value stood for the scripted response
 	Prompt []bool    `json:"prompt,omitempty"` // Prompt[k]: invocation k overran and answered promptLag after the cancellation
 	Stuck  bool      `json:"stuck,omitempty"` // plan hung and this run saw no event during the last second before the snapshot
 	lastAt time.Time
@@ -477,6 +536,7 @@ type RunObs struct {
 	writeAt  []time.Time // writeAt[i]: when the first write showing i+1 attempts returned
 	deadline []time.Time // deadline[k]: ctx.Deadline() of invocation k (zero if none)
 	ended    []bool      // ended[k]: invocation k logged its End
+	lag      []time.Duration // lag[k]: how long after the deadline a Prompt invocation answered
 
 }
 
@@ -497,17 +557,30 @@ type PlanObs struct {
 	WallMs    int64     `json:"wall_ms"`
 }
 
-func projAttempt(at *workflow.Attempt) AttObs {
+// projAttempt projects attempt number i of an action. alt: the action's plugin declares the POINTER type *AltResp.
+// The declared type makes RGood (a typed-nil pointer of the declared type included: it carries no tag, so it is
+// given the tag of its position); an interface that is not nil and holds any other type makes RBad.
+func projAttempt(at *workflow.Attempt, i int, alt bool) AttObs {
 	o := AttObs{Resp: "RNone", Err: "ENone"}
 	if at == nil {
 		return AttObs{Resp: "RBad", Err: "(EPlug 98 false)"}
 	}
 	if at.Resp != nil {
 		o.GoType = fmt.Sprintf("%T", at.Resp)
-		if v, ok := at.Resp.(hplug.Resp); ok {
+		o.Resp = "RBad"
+		if alt {
+			if v, ok := at.Resp.(*hplug.AltResp); ok {
+				if v == nil {
+					o.Resp = fmt.Sprintf("(RGood %d)", i)
+					o.GoType += "(nil)"
+				} else if k, ok := v.M["k"]; ok {
+					o.Resp = fmt.Sprintf("(RGood %d)", k)
+				} else {
+					o.Resp = "(RGood 97)"
+				}
+			}
+		} else if v, ok := at.Resp.(hplug.Resp); ok {
 			o.Resp = fmt.Sprintf("(RGood %d)", v.Value)
-		} else {
-			o.Resp = "RBad"
 		}
 	}
 	if e := at.Err; e != nil {
@@ -529,8 +602,8 @@ func projAction(a *workflow.Action) ActImg {
 	if a.State != nil {
 		im.Status = int(a.State.Status)
 	}
-	for _, at := range a.Attempts {
-		im.Atts = append(im.Atts, projAttempt(at))
+	for i, at := range a.Attempts {
+		im.Atts = append(im.Atts, projAttempt(at, i, a.Plugin == hplug.AltName))
 	}
 	return im
 }
@@ -639,15 +712,21 @@ const engineWriteCap = 150 * time.Millisecond
 
 // behave is the hplug.Behaviour of the action and the check plugin.
 func behave(ctx context.Context, p *hplug.Plugin, req any) (any, *plugins.Error) {
-	rq, ok := req.(hplug.Req)
-	if !ok {
+	var nonce, path string
+	alt := false
+	switch rq := req.(type) {
+	case hplug.Req:
+		nonce, path = rq.Nonce, rq.Path
+	case hplug.AltReq:
+		nonce, path, alt = rq.Nonce, rq.Path, true
+	default:
 		return p.OKResp(req), nil
 	}
 	mu.Lock()
-	pr := byNon[rq.Nonce]
+	pr := byNon[nonce]
 	var rec *actRec
 	if pr != nil {
-		rec = pr.acts[rq.Path]
+		rec = pr.acts[path]
 	}
 	if rec == nil {
 		mu.Unlock()
@@ -666,8 +745,7 @@ func behave(ctx context.Context, p *hplug.Plugin, req any) (any, *plugins.Error)
 	planned := flavour.coq()
 	// safety net: an engine that keeps invoking beyond the budget is stopped by a permanent error (the run is then
 	// an observation with more than Retries+1 calls, not a disturbance)
-	safety := k >= rec.spec.Retries+10
-	if safety {
+	if k >= rec.spec.Retries+10 {
 		flavour, planned = OPerm, OPerm
 	}
 	run.Eff = append(run.Eff, planned)
@@ -675,27 +753,46 @@ func behave(ctx context.Context, p *hplug.Plugin, req any) (any, *plugins.Error)
 	run.deadline = append(run.deadline, dl)
 	run.ended = append(run.ended, false)
 	run.Prompt = append(run.Prompt, false)
+	run.RespFl = append(run.RespFl, "")
+	run.lag = append(run.lag, 0)
 	if ctx.Err() != nil {
-		pr.disturbed = append(pr.disturbed, fmt.Sprintf("late_start: %s call %d entered after its deadline", rq.Path, k))
+		pr.disturbed = append(pr.disturbed, fmt.Sprintf("late_start: %s call %d entered after its deadline", path, k))
 	}
 	run.add("AStart")
 	rec.inflight++
 	pr.inflight++
 	mu.Unlock()
 
+	hh := fnv.New32a()
+	fmt.Fprintf(hh, "%s|%s|%d", nonce, path, k)
+	h := hh.Sum32()
+
 	eff := planned
-	if planned == OOverrun {
+	lag := time.Duration(0)
+	switch {
+	case flavour == OSlowOk || flavour == OSlowPerm:
+		select {
+		case <-time.After(slowDelay):
+		case <-ctx.Done():
+		}
+	case flavour == OOverrunIgnore && !dl.IsZero():
+		lag = time.Duration(lateLo+int(h>>8)%(lateHi-lateLo+1)) * time.Millisecond
+		time.Sleep(time.Until(dl) + lag) // does not look at the context
+	case planned == OOverrun:
 		select {
 		case <-ctx.Done():
 		case <-time.After(1500 * time.Millisecond):
-			// the deadline (15-25 ms) passed long ago and the context was never cancelled: an observation
-			// (ctx flag false for an overrun), not a disturbance
+			// the deadline passed long ago and the context was never cancelled: an observation (ctx flag false
+			// for an overrun), not a disturbance
 		}
 	}
 	cancelled := ctx.Err() != nil // decided once
-	prompt := cancelled && flavour != planned
+	prompt := cancelled && planned == OOverrun && flavour != OOverrun
 	if prompt {
-		time.Sleep(promptLag)
+		if lag == 0 {
+			lag = promptLag
+			time.Sleep(promptLag)
+		}
 	} else if cancelled {
 		eff = OOverrun
 		for t0 := time.Now(); time.Since(t0) < engineWriteCap; {
@@ -709,61 +806,88 @@ func behave(ctx context.Context, p *hplug.Plugin, req any) (any, *plugins.Error)
 		}
 	}
 
+	// the Go values that stand for the scripted pair
+	code := plugins.ErrCode(100 + k)
+	if k >= 90 {
+		code = 189
+	}
+	var resp any
+	var perr *plugins.Error
+	respFl := ""
+	good := func() any {
+		if alt {
+			if h%10 < 3 {
+				respFl = "good:typed-nil *AltResp (declared type)"
+				return (*hplug.AltResp)(nil)
+			}
+			respFl = "good:*AltResp"
+			return &hplug.AltResp{Echo: path, M: map[string]int{"k": k}}
+		}
+		respFl = "good:Resp"
+		return hplug.Resp{Path: path, Value: int64(k)}
+	}
+	switch {
+	case prompt && flavour == OOverrunPromptPerm:
+		perr = &plugins.Error{Code: code, Message: "late permanent error", Permanent: true}
+	case prompt:
+		resp = good()
+	case eff == OOverrun:
+		msg := "returned after the deadline"
+		if err := ctx.Err(); err != nil {
+			msg += ": " + err.Error()
+		}
+		perr = &plugins.Error{Code: code, Message: msg}
+	default:
+		switch outcomeResp[eff] {
+		case 1:
+			resp = good()
+		case 2: // a non-nil interface value whose dynamic type is not the declared one
+			switch (h >> 4) % 4 {
+			case 0:
+				if alt {
+					resp, respFl = hplug.Resp{Path: "wrong"}, "bad:Resp value"
+				} else {
+					resp, respFl = hplug.AltResp{Echo: "wrong"}, "bad:AltResp value"
+				}
+			case 1:
+				resp, respFl = (*hplug.Resp)(nil), "bad:typed-nil *Resp"
+			case 2:
+				resp, respFl = map[string]int(nil), "bad:nil map"
+			default:
+				resp, respFl = []string(nil), "bad:nil slice"
+			}
+		}
+		// an error value whose Message is empty is still an error: nothing may look at the text
+		msgT, msgP := "scripted transient error", "scripted permanent error"
+		if h%10 < 3 {
+			msgT, msgP = "", ""
+		}
+		switch outcomeErr[eff] {
+		case 1:
+			perr = &plugins.Error{Code: code, Message: msgT}
+		case 2:
+			perr = &plugins.Error{Code: code, Message: msgP, Permanent: true}
+		}
+	}
+
 	mu.Lock()
 	if eff != planned {
-		pr.disturbed = append(pr.disturbed, fmt.Sprintf("late_start: %s call %d planned %s delivered %s", rq.Path, k, outcomeName[planned], outcomeName[eff]))
+		pr.disturbed = append(pr.disturbed, fmt.Sprintf("late_start: %s call %d planned %s delivered %s", path, k, outcomeName[planned], outcomeName[eff]))
 	} else if eff != OOverrun {
 		if !dl.IsZero() && time.Until(dl) < 4*time.Millisecond {
-			pr.disturbed = append(pr.disturbed, fmt.Sprintf("near_deadline: %s call %d returned within 4ms of its deadline", rq.Path, k))
+			pr.disturbed = append(pr.disturbed, fmt.Sprintf("near_deadline: %s call %d returned within 4ms of its deadline", path, k))
 		}
 	}
 	run.Ctx[k] = cancelled
 	run.Eff[k] = eff
 	run.ended[k] = true
 	run.Prompt[k] = prompt
+	run.RespFl[k] = respFl
+	run.lag[k] = lag
 	run.add(fmt.Sprintf("(AEnd %s)", outcomeName[eff]))
 	rec.inflight--
 	pr.inflight--
 	mu.Unlock()
-
-	code := plugins.ErrCode(100 + k)
-	if k >= 90 {
-		code = 189
-	}
-	if prompt {
-		if flavour == OOverrunPromptOk {
-			return hplug.Resp{Path: rq.Path, Value: int64(k)}, nil
-		}
-		return nil, &plugins.Error{Code: code, Message: "late permanent error", Permanent: true}
-	}
-	if eff == OOverrun {
-		msg := "returned after the deadline"
-		if err := ctx.Err(); err != nil {
-			msg += ": " + err.Error()
-		}
-		return nil, &plugins.Error{Code: code, Message: msg}
-	}
-	var resp any
-	switch outcomeResp[eff] {
-	case 1:
-		resp = hplug.Resp{Path: rq.Path, Value: int64(k)}
-	case 2:
-		resp = hplug.AltResp{Echo: "a response of another type"}
-	}
-	// an error value whose Message is empty is still an error: nothing may look at the text
-	h := fnv.New32a()
-	fmt.Fprintf(h, "%s|%s|%d", rq.Nonce, rq.Path, k)
-	msgT, msgP := "scripted transient error", "scripted permanent error"
-	if h.Sum32()%10 < 3 {
-		msgT, msgP = "", ""
-	}
-	var perr *plugins.Error
-	switch outcomeErr[eff] {
-	case 1:
-		perr = &plugins.Error{Code: code, Message: msgT}
-	case 2:
-		perr = &plugins.Error{Code: code, Message: msgP, Permanent: true}
-	}
 	return resp, perr
 }
 
@@ -778,6 +902,9 @@ func build(sp *PlanSpec, r *core.Rand) (*workflow.Plan, *planRec) {
 			Req: hplug.Req{Nonce: pr.nonce, Path: as.Path, Arg: int64(as.Retries)}, Plugin: hplug.ActionName}
 		if as.Check {
 			a.Plugin = hplug.CheckName
+		} else if as.Alt {
+			a.Plugin = hplug.AltName
+			a.Req = hplug.AltReq{Nonce: pr.nonce, Path: as.Path, N: as.Retries}
 		}
 		rec := &actRec{id: a.ID, spec: as, obs: &ActObs{Path: as.Path, Runs: []*RunObs{}, Idle: []string{}}}
 		pr.acts[as.Path] = rec
@@ -840,6 +967,7 @@ func runBatch(specs []*PlanSpec, seed uint64) []*PlanObs {
 	set := hplug.NewSet()
 	set.Action.SetBehaviour(behave)
 	set.Check.SetBehaviour(behave)
+	set.Alt.SetBehaviour(behave)
 	inner, err := sqlite.New(ctx, "", set.Reg, sqlite.WithInMemory())
 	if err != nil {
 		return fail("harness: sqlite.New: " + err.Error())
@@ -937,6 +1065,17 @@ func runBatch(specs []*PlanSpec, seed uint64) []*PlanObs {
 		for _, rec := range pr.order {
 			ob := rec.obs
 			if im, ok := back[rec.id]; ok {
+				// a typed-nil pointer response is encoded as JSON null: storage cannot tell it from "no response".
+				// Pinned as equivalent for the read-back comparison only (the in-memory attempt is what is compared
+				// with the model).
+				if n := len(ob.Runs); n > 0 {
+					last := ob.Runs[n-1].Last.Atts
+					for i := range im.Atts {
+						if i < len(last) && strings.HasSuffix(last[i].GoType, "(nil)") && im.Atts[i].Resp == "RNone" {
+							im.Atts[i].Resp = last[i].Resp
+						}
+					}
+				}
 				ob.Back = im
 			} else {
 				ob.Back = ActImg{Status: -1, Atts: []AttObs{}}
@@ -963,9 +1102,9 @@ func runBatch(specs []*PlanSpec, seed uint64) []*PlanObs {
 					// at least promptLag late (then the answer had already arrived). Machine load; re-run - but if it
 					// persists in every re-run it is compared as it is (an engine that waits for late answers).
 					if r.Prompt[k] && r.Last.Atts[k].Err != "(EEngine false)" && !r.deadline[k].IsZero() &&
-						r.writeAt[k].Sub(r.deadline[k]) >= promptLag {
-						pr.disturbed = append(pr.disturbed, fmt.Sprintf("late_notice: %s call %d overran, answered %v after the cancellation, and the engine recorded the answer %v after the deadline",
-							ob.Path, k, promptLag, r.writeAt[k].Sub(r.deadline[k])))
+						r.writeAt[k].Sub(r.deadline[k]) >= r.lag[k] {
+						pr.disturbed = append(pr.disturbed, fmt.Sprintf("late_notice: %s call %d overran, answered %v after the deadline, and the engine recorded the answer %v after the deadline",
+							ob.Path, k, r.lag[k], r.writeAt[k].Sub(r.deadline[k])))
 					}
 				}
 				if len(r.Last.Atts) > r.Calls {
@@ -975,6 +1114,7 @@ func runBatch(specs []*PlanSpec, seed uint64) []*PlanObs {
 				}
 				rc.Ctx = append([]bool{}, r.Ctx...)
 				rc.Prompt = append([]bool{}, r.Prompt...)
+				rc.RespFl = append([]string{}, r.RespFl...)
 				rc.Eff = append([]Outcome{}, r.Eff...)
 				rc.Events = append([]string{}, r.Events...)
 				if rc.Last.Atts == nil {
@@ -1135,6 +1275,7 @@ func main() {
 	}
 	if *long {
 		specs = append(specs, longPlans(root)...)
+		specs = append(specs, latePlans(root)...)
 	}
 	specs = append(specs, randomPlans(root, *n)...)
 	if *only != "" {
@@ -1258,6 +1399,7 @@ func main() {
 		var terms, hashParts []string
 		outcomes := map[string]int{}
 		flavours := map[string]int{}
+		respFl := map[string]int{}
 		retries := map[string]int{}
 		scriptLen := map[string]int{}
 		callsH := map[string]int{}
@@ -1287,6 +1429,11 @@ func main() {
 			retries[fmt.Sprint(a.Retries)]++
 			scriptLen[fmt.Sprint(len(a.Script))]++
 			r0 := ob.Runs[0]
+			for _, f := range r0.RespFl {
+				if f != "" {
+					respFl[f]++
+				}
+			}
 			for k, e := range r0.Eff {
 				outcomes[outcomeName[e]]++
 				if e == OOverrun {
@@ -1306,7 +1453,7 @@ func main() {
 		c.Coq = core.List(terms)
 		c.Nontrivial = ran > 0
 		c.Hash = core.Hash(hashParts...)
-		c.Dist = map[string]any{"actions": len(acts), "ran": ran, "never_ran": neverRan, "runs": runsTotal, "outcomes": outcomes, "overrun_flavours": flavours,
+		c.Dist = map[string]any{"actions": len(acts), "ran": ran, "never_ran": neverRan, "runs": runsTotal, "outcomes": outcomes, "overrun_flavours": flavours, "response_flavours": respFl,
 			"retries": retries, "script_len": scriptLen, "calls": callsH, "status": statusH, "combos_run": combosRun,
 			"kinds": kinds, "round": rounds[sp.id()], "rerun_causes": causes[sp.id()], "hang": o.Hang, "disturbed": len(o.Disturbed), "wall_ms": o.WallMs}
 		c.Observed = o
